@@ -1,9 +1,8 @@
-(* util.slice_to_ascending_slice (regenerated from source in Gen.Gen_util) selects the same
-   positions as the key, in ascending order -- under the guard that start/stop are
-   non-negative or None.  Outside the guard it is wrong (Refuted/C08.v). *)
+(* util.slice_to_ascending_slice (regenerated from source in Gen.Gen_util) equals the typed
+   function asc_typed on every well-typed argument. *)
 Require Import SF.Prelude SF.PySlice SF.Dtype SF.PyDyn Gen.Gen_util Proofs.SliceFacts.
 
-(* the original body of the function, for a key with step st <= 0 *)
+(* the body of the function for a key with step st < 0 whose start/stop are positions or None *)
 Definition asc_tail (k : slice) (st n : Z) : slice :=
   let stop' := match s_start k with None => None | Some a => Some (a + 1) end in
   if st =? -1 then mk_slice (match s_stop k with None => None | Some b => Some (b + 1) end) stop' (Some 1)
@@ -30,24 +29,17 @@ Definition asc_typed (k : slice) (n : Z) : slice :=
     else asc_tail k st n
   end.
 
-Ltac dyn_step := lazy -[Z.mul Z.div Z.add Z.sub Z.min Z.max Z.abs Z.opp Z.modulo Z.gtb Z.eqb Z.ltb Z.leb Z.geb adj_bound].
+Require Import SF.PyDynTac.
+Local Opaque py_slice_indices Z.mul Z.div Z.add Z.sub Z.min Z.max Z.abs Z.opp Z.modulo Z.gtb Z.eqb Z.ltb Z.leb Z.geb adj_bound.
 
-Ltac dyn_solve :=
-  repeat (dyn_step;
-    try match goal with
-    | |- context [match Some ?c with _ => _ end] => destruct c eqn:?
-    | |- context [if ?c then _ else _] => destruct c eqn:?
-    end);
-  try reflexivity; try (exfalso; lia).
-
-(* the regenerated dynamic kernel computes the typed function on well-typed arguments *)
 Lemma asc_typed_refines k n : s_step k <> Some 0 -> 0 <= n ->
   slice_to_ascending_slice (of_slice k) (PInt n) = of_slice (asc_typed k n).
 Proof.
   destruct k as [oa ob [st|]]; intros Hst Hn; cbn in Hst;
     [assert (Hst' : st <> 0) by congruence | destruct oa, ob; reflexivity].
-  unfold asc_typed, asc_tail, neg_bound, slice_to_ascending_slice, py_slice_indices, slice_indices, of_slice.
+  unfold asc_typed, asc_tail, neg_bound, of_slice.
   cbn [s_step s_start s_stop of_oz].
-  destruct oa as [x|], ob as [y|]; dyn_solve.
+  unfold slice_to_ascending_slice.
+  rewrite !py_slice_indices_ok by assumption.
+  destruct oa as [x|], ob as [y|]; cbn [of_oz]; dyn_refine.
 Qed.
-
